@@ -196,3 +196,40 @@ Example C09_multi_key_example :
               [Some s_MGET; Some [123; 98; 97; 114; 125; 49]; Some [123; 98; 97; 114; 125; 50]])
   = [([65], [Some s_GET; Some [123; 98; 97; 114; 125; 49]]); ([65], [Some s_GET; Some [123; 98; 97; 114; 125; 50]])].
 Proof. vm_compute. reflexivity. Qed.
+
+(* ---------- key level x slot level: hashing composed with the route group's C02 theorems over broker histories ----------
+   Model/Route.v (C02) and Model/Slot.v both define route / install / installed, so the composed statements are named
+   propositions of Proofs/SlotProofsBroker.v (unfold them there; each is the C02 statement with `slot k` for the slot):
+   key_slot_in_range_stmt    forall k, Slot.slot k < Ranges.SLOT_NUM  - exactly the premise `sl < SLOT_NUM` of C02_reachable_route
+   key_route_stmt            forall s, reachable_any s -> forall lim name v, view_cluster lim s name = Some (Some v) ->
+                             forall ph KEY start tr, phases_ok ph (vc_nodes v) = true -> In start (proxies_of (vc_nodes v)) ->
+                             path ph (installed s lim) (slot KEY) start tr -> <conclusions of C02_reachable_route at slot KEY>:
+                             at most 1 (migrating slot: 2) redirections, ends Exec on the designated node or Queued at an allowed
+                             blocked node, never Err, no stray execution anywhere in the chase
+   key_route_dynamic_stmt    the same for C02_reachable_route_dynamic (phases progressing during the chase, bound 3)
+   key_progress_stmt         C02_progress at slot KEY *)
+From UM Require Proofs.SlotProofsBroker.
+
+Theorem C09_key_slot_in_range_for_routing : SlotProofsBroker.key_slot_in_range_stmt.
+Proof. exact SlotProofsBroker.key_slot_in_range_holds. Qed.
+Check C09_key_slot_in_range_for_routing : SlotProofsBroker.key_slot_in_range_stmt.
+Print Assumptions C09_key_slot_in_range_for_routing.
+
+Theorem C09_key_route : SlotProofsBroker.key_route_stmt.
+Proof. exact SlotProofsBroker.key_route_holds. Qed.
+Check C09_key_route : SlotProofsBroker.key_route_stmt.
+Print Assumptions C09_key_route.
+
+Theorem C09_key_route_dynamic : SlotProofsBroker.key_route_dynamic_stmt.
+Proof. exact SlotProofsBroker.key_route_dynamic_holds. Qed.
+Check C09_key_route_dynamic : SlotProofsBroker.key_route_dynamic_stmt.
+Print Assumptions C09_key_route_dynamic.
+
+Theorem C09_key_progress : SlotProofsBroker.key_progress_stmt.
+Proof. exact SlotProofsBroker.key_progress_holds. Qed.
+Check C09_key_progress : SlotProofsBroker.key_progress_stmt.
+Print Assumptions C09_key_progress.
+
+(* the premise is literally the one of the route group's theorem (pinned by unfolding the named proposition) *)
+Example C09_key_slot_premise_unfolded : forall k : bytes, slot k < 16384.
+Proof. exact C09_key_slot_in_range_for_routing. Qed.
